@@ -75,6 +75,45 @@ def main():
         rac.case(tuple(ops), nontrivial=any(o[0] == "expr" for o in ops), sample=[G.opstr(o) for o in ops])
         if rac.out_of_time(0.85):
             break
+    rac.section("inplace-ops", "each of the 13 in-place operators applied through a reference to (a) a plain location and (b) an "
+                "expression-defined location, with dependants, followed by a change of an upstream input; every location "
+                "compared with direct Python evaluation (old expression (op) operand, re-evaluated on the new inputs)",
+                "13 operators x 2 kinds x 3 operand values")
+    import operator as _op
+    IOPS = [("+=", _op.add), ("-=", _op.sub), ("*=", _op.mul), ("/=", _op.truediv), ("//=", _op.floordiv), ("%=", _op.mod),
+            ("**=", _op.pow), ("@=", None), ("<<=", _op.lshift), (">>=", _op.rshift), ("&=", _op.and_), ("|=", _op.or_), ("^=", _op.xor)]
+    for sym, fn in IOPS:
+        if fn is None:
+            continue
+        for operand in ((3, 2, 5) if sym in ("<<=", ">>=", "&=", "|=", "^=") else (2.5, 3, -1.5)):
+            for kind in ("plain", "defined"):
+                isint = sym in ("<<=", ">>=", "&=", "|=", "^=")
+                src = ["import xdeps", f"d = {{'a': {7 if isint else 7.25!r}, 'b': {4 if isint else 1.75!r}, 'x': 0, 'y': 0}}", "m = xdeps.Manager(); r = m.ref(d, 'd')"]
+                if kind == "defined":
+                    src.append("r['x'] = r['a'] + r['b']" if not isint else "r['x'] = r['a'] | r['b']")
+                else:
+                    src.append(f"r['x'] = {9 if isint else 9.5!r}")
+                src += ["r['y'] = r['x'] * 2", f"r['x'] {sym} {operand!r}", f"r['a'] = {12 if isint else 10.5!r}"]
+                env = {}
+                key = f"inplace {sym} {operand} {kind}"
+                a0, b0 = (7, 4) if isint else (7.25, 1.75)
+                a1 = 12 if isint else 10.5
+                try:
+                    base = (a1 | b0 if isint else a1 + b0) if kind == "defined" else (9 if isint else 9.5)
+                    want_x = fn(base, operand)
+                    want = dict(x=want_x, y=want_x * 2)
+                except Exception:      # noqa
+                    continue
+                scr = PRELUDE + "\n".join(src) + f"\nprint(d)\nassert d['x'] == {want['x']!r} and d['y'] == {want['y']!r}, d\n"
+                rac.case((sym, operand, kind), sample=dict(op=sym, operand=operand, kind=kind))
+                try:
+                    exec("\n".join(src), env)
+                    d_ = env["d"]
+                    if not (G.close(d_["x"], want["x"]) and G.close(d_["y"], want["y"])) or type(d_["x"]) is not type(want["x"]):
+                        rac.fail(key, f"C01 {' ; '.join(src[3:])}: x = {d_['x']!r}, y = {d_['y']!r}; Python gives x = {want['x']!r}, y = {want['y']!r}", scr,
+                                 "MutableRef.__iadd__")
+                except Exception as ex:      # noqa
+                    rac.fail(key, f"C01 {' ; '.join(src[3:])}: raised {type(ex).__name__}: {ex}", scr, "MutableRef.__iadd__")
     rac.section("chains", "chains v[i+1] = v[i] + 1 of length N defined consumer-before-producer, then v[0] assigned",
                 "N in 50, 1500, 4000", exhaustive=False)
     import xdeps
